@@ -19,7 +19,7 @@ from harness import lang_env as E
 from harness import lang_gen as G
 
 GEN = ['lang_tables', 'lang_schemas']
-LEAN_MODULES = ['Mistral.Props.C14', 'Mistral.Props.C14Schema']
+LEAN_MODULES = ['Mistral.Props.C14', 'Mistral.Props.C14Schema', 'Mistral.Props.C14Ctor']
 MANIFEST = {
     'technique': 'Lean 4 theorems over a model of the workbook text cutter, spec-dict normalisation, the graph '
                  'checks of workflow validation and the JSON-schema level (a total interpreter of the schema keywords '
@@ -47,9 +47,15 @@ MANIFEST = {
             'the forms OnClauseSpec handles, policies expression or non-negative integer / bool, only declared string '
             'keys, name / base / version present ...: *_accept_shape, one theorem per class); a non-string key below '
             'patternProperties is a rejection; a schema is the conjunction of its keywords, allOf / anyOf / oneOf '
-            'facts; a task named `version` is accepted but never instantiated (tasks_all_instantiated_full_fails, '
-            'replayed; _partial for every other name). Schema validation is total by construction (structural '
-            'recursion, no $ref, the TypeError of a non-string key is part of the result). Hang-freedom, the '
+            'facts; every task / workbook member / list member of an accepted definition is instantiated '
+            '(tasks_all_instantiated after repo patch 27, section_members_instantiated, list_members_instantiated). '
+            'Constructor level (Props.C14Ctor): the modelled __init__ + validate_schema + validate_semantics of '
+            'RetrySpec, PoliciesSpec, PublishSpec, OnClauseSpec, TaskDefaultsSpec, TaskSpec (direct/reverse), '
+            'WorkflowSpec and WorkflowListSpec, in which every projection (data[k], .get on a non-dict, len, iteration, '
+            'item assignment, [0], regex on a non-string) can get stuck, return a specification or a definition error '
+            'for every value and every oracle of the regular expressions / expression grammars (constructor_total), '
+            'each projection being justified by an *_accept_shape fact. Schema validation is total by construction '
+            '(structural recursion, no $ref, the TypeError of a non-string key is part of the result). Hang-freedom, the '
             'expression / YAML / regex engines and re-read stability are decided by the monitor on the real code.',
     'note': 'totality of the whole entry points and hangs are monitor-only (time limit, sampled inputs); PyYAML, re, '
             'yaql, jinja2, sqlite are exercised but not modelled; jsonschema is modelled for the keyword subset that '
@@ -67,8 +73,11 @@ RULE = ('documents = bundled YAML + generated workflow lists/workbooks/action li
         'those documents (recorded), every node of every parsed document against the classes of its role (raw and '
         'with the name/version/type injections), random node x class pairs, ~220 hand-written corner values x every '
         'class; compared: accept/reject, TypeError reached, multiset of (path, failing keyword) of all errors; '
-        'non-trivial = rejected or a dict; distinct = distinct (class, value). schema-ctor: accepted values through '
-        'the real constructor + validate_semantics. schema-re: every pattern x harvested keys/strings, alphabet '
+        'non-trivial = rejected or a dict; distinct = distinct (class, value). ctor: the same pairs for the 10 classes '
+        'with a constructor model, accepted by the schema or not: real instantiate_spec(validate=True) vs the Lean '
+        'constructor with oracle tables computed by the real _parse_cmd_and_input / _get_with_items_as_dict / '
+        'expr.validate; compared: specification / definition error / internal error and the getters of the '
+        'specification; non-trivial = a specification was built or the schema accepted the value. schema-re: every pattern x harvested keys/strings, alphabet '
         'soups, non-ASCII word/space characters; non-trivial = match. schema-eq: node pairs; non-trivial = equal.')
 TRUSTED = [
     'totality ("never an internal error") and hang-freedom are NOT theorems: they are evaluated by the monitor on the '
@@ -89,6 +98,11 @@ TRUSTED = [
     '(the sorted fast path of _utils.uniq differs only for lists of numbers containing nan: compared on the verdict '
     'only); the order of the errors yielded before a TypeError by additionalProperties-with-schema follows a python '
     'set and is not compared; YAML values of no JSON type (date, bytes, set) are opaque',
+    'constructor model (Model/SchemaCtor.lean): the regular expressions CMD_PTRN / PARAMS_PTRN / WITH_ITEMS_PTRN with '
+    'json.loads, the expression grammars and is_uuid_like are an oracle (theorems hold for every oracle; the stream '
+    'fills it from the real functions); inline parameter values are assumed not to be dicts (PARAMS_PTRN cannot '
+    'produce one); the graph checks of validate_semantics are Model/Lang.lean, not part of ctorWorkflow; error '
+    'classes are compared as definition error / internal error, not by exception type',
     'harness seams of the schema stream: a recorder around BaseSpec.validate_schema and parser.parse_yaml (off during '
     'the scaling probes); while the stream itself calls validate_schema on bare spec objects str(ValidationError) is '
     'the bare message (the pretty-printed text costs 17 ms per rejection; first 150 rejections use the real __str__)',
@@ -666,8 +680,9 @@ def check_transitions(ctx, st, entry, text, origin, spec):
 
 def check_tasks_kept(ctx, st, entry, text, origin, spec):
     """Statement "an accepted definition … is the same definition (tasks, …)": every key of the `tasks` section of
-    an accepted workflow is a task of the specification.  Model side (Tie B of `specListMembers`): the keys
-    `BaseSpecList.__init__` instantiates, through the driver."""
+    an accepted workflow is a task of the specification; every member of the `workflows` / `actions` section of an
+    accepted workbook and of an accepted workflow / action list is a member of the specification.  Model side
+    (Tie B of `specListMembers` / `listSpecMembers`): the keys the constructors instantiate, through the driver."""
     from harness import schema_stream as S
     try:
         d = st['sp'].parse_yaml(text)
@@ -675,30 +690,40 @@ def check_tasks_kept(ctx, st, entry, text, origin, spec):
         return
     if not isinstance(d, dict):
         return
+    # (label, written dict, keys of the specification, top-level list?)
+    sections = []
+    wfs = []
     if entry == 'parse.wf':
+        sections.append(('<workflow list>', d, [w.get_name() for w in spec.get_workflows()], True))
         wfs = [(w.get_name(), w, d.get(w.get_name())) for w in spec.get_workflows()]
-    elif entry == 'parse.wb' and spec.get_workflows():
-        src = d.get('workflows') if isinstance(d.get('workflows'), dict) else {}
-        wfs = [(w.get_name(), w, src.get(w.get_name())) for w in spec.get_workflows()]
-    else:
-        return
+    elif entry == 'parse.act':
+        sections.append(('<action list>', d, [a.get_name() for a in spec.get_actions()], True))
+    elif entry == 'parse.wb':
+        if isinstance(d.get('workflows'), dict) and spec.get_workflows():
+            sections.append(('workflows', d['workflows'], list(spec.get_workflows().item_keys()), False))
+            wfs = [(w.get_name(), w, d['workflows'].get(w.get_name())) for w in spec.get_workflows()]
+        if isinstance(d.get('actions'), dict) and spec.get_actions():
+            sections.append(('actions', d['actions'], list(spec.get_actions().item_keys()), False))
     for wname, w, src in wfs:
-        if not isinstance(src, dict) or not isinstance(src.get('tasks'), dict):
-            continue
-        written = [k for k in src['tasks']]
-        got = list(w.get_tasks().item_keys())
+        if isinstance(src, dict) and isinstance(src.get('tasks'), dict):
+            sections.append(('tasks of %r' % (wname,), src['tasks'], list(w.get_tasks().item_keys()), False))
+    for label, src, got, top in sections:
+        # what the user wrote: every entry, except the version of the document / the marker of a workbook section
+        written = [k for k, v in src.items() if not (k == 'version' and (top or not isinstance(v, dict)))]
         try:
-            model = ctx.driver().call('schema.members', {'doc': S.enc(src['tasks'])})
+            model = ctx.driver().call('schema.members', {'doc': S.enc(src), 'list': top})
         except S.Untransportable:
             continue
-        ctx.evaluated('taskskept', [text_hash(text), wname], nontrivial=len(written) > 1)
+        ctx.evaluated('taskskept', [text_hash(text), label], nontrivial=len(written) > 1)
+        ctx.count('taskskept', 'section:' + label.split(' ')[0])
         if model != got:
-            ctx.disagree('taskskept', {'text': text, 'workflow': wname}, model, got)
+            ctx.disagree('taskskept', {'text': text, 'section': label}, model, got)
         lost = [k for k in written if k not in got]
         if lost:
             ctx.count('taskskept', 'lost:%s' % ','.join(map(str, lost)))
-            ctx.violation('accepted workflow %r: the task(s) %r written in `tasks` are not part of the specification '
-                          '(never validated, never run); tasks of the specification: %r' % (wname, lost, got),
+            ctx.violation('accepted definition, %s: the member(s) %r written in the section are not part of the '
+                          'specification (never validated, never run); members of the specification: %r' % (
+                              label, lost, got),
                           {'kind': 'doc', 'entry': entry, 'text': text, 'origin': origin},
                           {'kind': 'accepted-task-lost', 'names': sorted(map(str, lost))})
 
